@@ -106,7 +106,7 @@ def cfgs(tier):
 
 
 def chunk_script(items):
-    lines = ['sinks pipe', 'lean 1', 'noentry']
+    lines = ['sinks pipe', 'lean 1', 'noentry', 'errno -1']
     n = 0
     plan = []
     for cfg, mode in items:
